@@ -10,6 +10,8 @@ const PIECES: [&str; 34] = [
 pub struct G {
     pub rng: Rng,
     pub ws: bool,
+    /// also generate characters XML 1.0 cannot carry (off for `rxabs`, whose XML the harness renders itself)
+    pub forbidden: bool,
 }
 
 impl G {
@@ -33,6 +35,13 @@ impl G {
                 (0..n).map(|_| *self.rng.pick(&PIECES[..])).collect::<Vec<_>>().join("")
             }
         };
+        // characters XML 1.0 cannot carry at all (the sender must refuse them, else the instance is not well-formed)
+        if self.forbidden && self.rng.chance(1, 25) {
+            let w = *self.rng.pick(&["\u{0}", "\u{1}", "\u{8}", "\u{b}", "\u{c}", "\u{e}", "\u{1f}", "\u{fffe}", "\u{ffff}"]);
+            let at = self.rng.below(s.chars().count() as u64 + 1) as usize;
+            let idx = s.char_indices().nth(at).map(|(i, _)| i).unwrap_or(s.len());
+            s.insert_str(idx, w);
+        }
         if self.ws && self.rng.chance(1, 12) {
             let w = *self.rng.pick(&["\t", "\n", "\r", "\r\n"]);
             let at = self.rng.below(s.chars().count() as u64 + 1) as usize;
@@ -191,7 +200,16 @@ impl<'a> Case<'a> {
 }
 
 fn pick_time(rng: &mut Rng) -> u64 {
-    let secs = rng.range(1_600_000_000, 1_900_000_000);
+    // mostly the 2020s; sometimes around the NTP era wrap (2036-02-07T06:28:16Z = 2085978496 s): 7 days before .. 1 day after
+    let secs = if rng.chance(1, 12) {
+        match rng.below(4) {
+            0 => 2_085_978_496 - rng.range(0, 5),
+            1 => 2_085_978_496 + rng.range(0, 86_400),
+            _ => 2_085_978_496 - rng.range(1, 7 * 86_400 + 10),
+        }
+    } else {
+        rng.range(1_600_000_000, 1_900_000_000)
+    };
     let frac = match rng.below(5) {
         0 => 0,
         1 => 999_999,
@@ -496,6 +514,7 @@ fn wrap_case(ctx: &mut Ctx, e: &mut FdtEngine, g: &mut G, n: u64) {
 fn rxabs_cases(ctx: &mut Ctx, e: &mut FdtEngine, g: &mut G, n: u64) {
     e.reset();
     ctx.case("rxabs");
+    g.forbidden = false;
     let optn = |g: &mut G, vals: &[u64]| -> String {
         if g.rng.chance(1, 5) { "~".into() } else { g.rng.pick(vals).to_string() }
     };
@@ -590,6 +609,21 @@ fn witness_cases(ctx: &mut Ctx, e: &mut FdtEngine) {
         }
     }
     ctx.end_case(e);
+    // being-transferred mode: object removed while its first transfer is running, next object started meanwhile
+    e.reset();
+    ctx.case("witness-obt-removed-in-transmission");
+    {
+        let mut c = Case { ctx, e, now: 1_700_000_000_000_000, tois: vec![], reads: 0 };
+        c.op(&cfg_line(false, 1, 3_600_000_000, &oti, &None, 0));
+        c.op(&add_line("file:///a", "t", 6000, 1, 0, None, &None, &None, "~", &None, 1, "~", 0));
+        for _ in 0..4 {
+            c.rd();
+        }
+        c.op("fdtabs rm 1");
+        c.op(&add_line("file:///b", "t", 3, 1, 0, None, &None, &None, "~", &None, 1, "~", 0));
+        c.drain(60);
+        c.finish();
+    }
     // D10: Max-Number-of-Encoding-Symbols < Maximum-Source-Block-Length (FDT level and File level)
     e.reset();
     ctx.case("witness-D10-max-n-lt-b");
@@ -603,7 +637,7 @@ pub fn run(ctx: &mut Ctx, e: &mut FdtEngine) {
                 per-object OTI overrides of all schemes, cache-control variants, groups, start ids incl. the 2^20 wrap, durations 1 s .. 7 d, FDT cenc) \
                 on a real Sender; every emitted instance read by expat and by flute's Receiver and compared with the Lean model; \
                 non-trivial = history with >= 1 object and >= 1 fully emitted instance, distinct by configuration + op shape".to_string();
-    let mut g = G { rng: Rng::new(ctx.seed), ws: true };
+    let mut g = G { rng: Rng::new(ctx.seed), ws: true, forbidden: true };
     witness_cases(ctx, e);
     let thorough = ctx.tier_thorough;
     let n_hist = if thorough { 1500 } else { 160 };
